@@ -272,3 +272,83 @@ def run_with_timeout(fn, timeout):
     if 'e' in box:
         return 'exc', box['e'], dt
     return 'ok', box.get('v'), dt
+
+
+class SshServer(ServerCore):
+    """In-process paramiko server on a socketpair; the client end is handed to manager.connect_ssh(sock=...)."""
+
+    def __init__(self, password='pw', accept_subsystems=('netconf',), **kw):
+        import paramiko
+        ServerCore.__init__(self, **kw)
+        self.client_sock, self.server_sock = socket.socketpair()
+        self.host_key = paramiko.RSAKey.generate(1024)
+        self.auth_attempts = []
+        self.subsystem_requests = []
+        self.password = password
+        self.accept_subsystems = accept_subsystems
+        self.chan = None
+        self.chan_ready = threading.Event()
+        outer = self
+
+        class Srv(paramiko.ServerInterface):
+            def check_auth_password(self, username, password):
+                outer.auth_attempts.append(('password', username, password == outer.password))
+                return paramiko.AUTH_SUCCESSFUL if password == outer.password else paramiko.AUTH_FAILED
+
+            def check_auth_publickey(self, username, key):
+                outer.auth_attempts.append(('publickey', username, False))
+                return paramiko.AUTH_FAILED
+
+            def get_allowed_auths(self, username):
+                return 'password,publickey'
+
+            def check_channel_request(self, kind, chanid):
+                return paramiko.OPEN_SUCCEEDED
+
+            def check_channel_subsystem_request(self, channel, name):
+                outer.subsystem_requests.append(name)
+                if name in outer.accept_subsystems:
+                    outer.chan = channel
+                    outer.chan_ready.set()
+                    return True
+                return False
+        self.transport = paramiko.Transport(self.server_sock)
+        self.transport.add_server_key(self.host_key)
+        self.transport.start_server(event=threading.Event(), server=Srv())
+        self.thread = threading.Thread(target=self._run, daemon=True)
+        self.thread.start()
+
+    def _run(self):
+        if not self.chan_ready.wait(10):
+            self.done.set()
+            return
+        self.conn = self.chan
+        self.serve()
+
+    def _send(self, b):
+        self.conn.sendall(b)
+
+    def _recv(self):
+        return self.conn.recv(65536)
+
+    def _close(self):
+        try:
+            if self.conn is not None:
+                self.conn.close()
+            self.transport.close()
+        except Exception:
+            pass
+
+    def cleanup(self):
+        self.close()
+        try:
+            self.transport.close()
+            self.client_sock.close()
+            self.server_sock.close()
+        except Exception:
+            pass
+
+    def connect(self, password='pw', **kw):
+        from ncclient import manager
+        return manager.connect_ssh(host='device.example', sock=self.client_sock, username='u', password=password, hostkey_verify=False,
+                                   allow_agent=False, look_for_keys=False, **kw)
